@@ -444,10 +444,17 @@ func FileSrc(f *File, lay Layout, lines map[Node]int) string {
 		if !t.HeaderStyle && !t.NoDoc {
 			w.s("/**\n")
 			for _, p := range t.Params {
+				// (a third of the declarations carry no description: the name is then the last thing on the line)
+				desc := " desc"
+				if (w.line+len(p.Name))%3 == 0 {
+					desc = ""
+				} else if (w.line+len(p.Name))%7 == 1 {
+					desc = " several words, and a {brace}  "
+				}
 				if p.Optional {
-					w.s(" * @param? " + p.Name + " desc\n")
+					w.s(" * @param? " + p.Name + desc + "\n")
 				} else {
-					w.s(" * @param " + p.Name + " desc\n")
+					w.s(" * @param " + p.Name + desc + "\n")
 				}
 			}
 			w.s(" */\n")
